@@ -11,6 +11,12 @@ impl Scalar {
         0, 0,
     ]);
 
+    /// The scalar 1
+    pub const ONE: Self = Scalar([
+        1, 0, 0, 0, 0, 0, 0, 0, 0, 0, 0, 0, 0, 0, 0, 0, 0, 0, 0, 0, 0, 0, 0, 0, 0, 0, 0, 0, 0, 0,
+        0, 0,
+    ]);
+
     /// Create a scalar from its little-endian byte representation, without checking that it is canonical
     pub const fn from_bytes(bytes: &[u8; 32]) -> Self {
         Scalar(*bytes)
